@@ -352,11 +352,17 @@ func (t *sseClientTransport) handleResponse(data string) {
 	// Get the response ID as a string.
 	idStr := requestIDKey(response.ID)
 
-	// Find the corresponding response channel.
-	t.responsesMu.RLock()
-	responseChan, ok := t.responses[idStr]
-	t.responsesMu.RUnlock()
+	// Parse the raw message.
+	rawMsg := json.RawMessage(data)
 
+	// Find the corresponding response channel and send the response on it. The (non-blocking) send
+	// is made while the table's read lock is held: close() closes the channels of pending requests
+	// under the write lock, so a send made after releasing the lock could hit a closed channel and
+	// panic the reader goroutine.
+	t.responsesMu.RLock()
+	defer t.responsesMu.RUnlock()
+
+	responseChan, ok := t.responses[idStr]
 	if !ok {
 		if t.logger != nil {
 			t.logger.Debugf("Received response for unknown request ID: %s", idStr)
@@ -364,16 +370,12 @@ func (t *sseClientTransport) handleResponse(data string) {
 		return
 	}
 
-	// Parse the raw message.
-	rawMsg := json.RawMessage(data)
-
-	// Send the response on the channel.
 	select {
 	case responseChan <- &rawMsg:
 		// Response sent successfully.
 	default:
 		if t.logger != nil {
-			t.logger.Errorf("Response channel for ID %s is full or closed", idStr)
+			t.logger.Errorf("Response channel for ID %s is full", idStr)
 		}
 	}
 }
